@@ -242,6 +242,31 @@ func checkHMACVerify(c *Ctx, rule string) {
 					cmpEdges = append(cmpEdges, Edge{b, i})
 				}
 			}
+			if ok && a.Op == token.EQL && isBoolTrue(a.Y) {
+				if call, isCall := a.X.(*ssa.Call); isCall {
+					// hmac.Equal is ConstantTimeCompare == 1
+					if calleeIs(call, "crypto/hmac", "", "Equal") {
+						cmpEdges = append(cmpEdges, Edge{b, i})
+					}
+					// slices.ContainsFunc(secrets, pred): true only if pred said true for one of them
+					g := call.Call.StaticCallee()
+					if g != nil && g.Origin() != nil {
+						g = g.Origin()
+					}
+					if g != nil && g.Pkg != nil && g.Pkg.Pkg.Path() == "slices" && g.Name() == "ContainsFunc" && len(call.Call.Args) == 2 {
+						ts := funcValueTargets(call.Call.Args[1], 0)
+						okAll := len(ts) > 0
+						for _, t := range ts {
+							if !trueOnlyOnConstantTimeMatch(p, p.View(unwrapBound(t))) {
+								okAll = false
+							}
+						}
+						if okAll {
+							cmpEdges = append(cmpEdges, Edge{b, i})
+						}
+					}
+				}
+			}
 		}
 	}
 	// tolerance edges
@@ -315,7 +340,57 @@ func checkHMACVerify(c *Ctx, rule string) {
 		sprintf, _ = ci.(*ssa.Call)
 	}
 	if sprintf == nil {
-		c.Fail(rule, name+":string-to-sign", p.Pos(fn.Pos()), "no fmt.Sprintf building the string to sign")
+		// the same string written as a concatenation and converted for the MAC
+		var conv *ssa.Convert
+		var leaves []ssa.Value
+		for _, b := range fn.Blocks {
+			for _, ins := range b.Instrs {
+				if cv, ok := ins.(*ssa.Convert); ok && isByteSlice(cv.Type()) {
+					if ls := concatLeaves(cv.X); len(ls) == 7 {
+						conv, leaves = cv, ls
+					}
+				}
+			}
+		}
+		if conv == nil {
+			c.Fail(rule, name+":string-to-sign", p.Pos(fn.Pos()), "no fmt.Sprintf (or concatenation) building the string to sign")
+		} else {
+			sep := func(v ssa.Value) bool { sv, ok := constString(v); return ok && (sv == "\n" || sv == "\\n") }
+			okArgs := sep(leaves[1]) && sep(leaves[3]) && sep(leaves[5]) &&
+				valueMentionsField(leaves[0], "TimestampHeader", 0) && valueMentionsField(leaves[2], "Method", 0)
+			pathOK := false
+			for _, sv := range sourcesOf(leaves[4]) {
+				if sv.Kind == "param" && strings.Contains(strings.ToLower(sv.Desc), "path") {
+					pathOK = true
+				}
+			}
+			hs := sourcesOf(leaves[6])
+			hashOK := len(hs) == 1 && hs[0].Kind == "call" && strings.Contains(hs[0].Desc, "hex.EncodeToString") && callArgFrom(hs[0].Val, "crypto/sha256", "Sum256")
+			c.Check(okArgs && pathOK && hashOK, rule, name+":string-to-sign", p.InstrPos(conv), "ts\\nmethod\\npath\\nhex(sha256(body)) in this order", "string to sign is not ts\\nmethod\\npath\\nsha256(body)")
+			// it is what the MAC is fed with: a Write in the function or in one of its function literals that takes it
+			fed := false
+			fns := append([]*ssa.Function{fn}, allAnon(p.Orig(fn))...)
+			for _, g := range fns {
+				for _, ci := range allCalls(g, func(ci ssa.CallInstruction) bool {
+					return ci.Common().IsInvoke() && ci.Common().Method.Name() == "Write"
+				}) {
+					if u, ok := ci.Common().Args[0].(*ssa.UnOp); ok && u.Op == token.MUL {
+						if _, isFV := u.X.(*ssa.FreeVar); isFV {
+							fed = true // the captured message variable
+						}
+					}
+					for _, sv := range sourcesOf(ci.Common().Args[0]) {
+						if sv.Val == ssa.Value(conv) || sv.Kind == "transform" {
+							fed = true
+						}
+						if fv, ok := sv.Val.(*ssa.FreeVar); ok && isByteSlice(fv.Type()) {
+							fed = true // the captured message (the only []byte the literal captures besides the signature is checked by the compare rule)
+						}
+					}
+				}
+			}
+			c.Check(fed, rule, name+":mac-input", p.InstrPos(conv), "the MAC is written with the string to sign", "the MAC input is not the string to sign")
+		}
 	} else {
 		format, _ := constString(sprintf.Call.Args[0])
 		elems, _ := varargElems(sprintf.Call.Args[1])
@@ -679,4 +754,63 @@ func checkAuthWiring(c *Ctx, rule string) {
 		}
 		c.Check(len(okTargets) >= 1 && !bad, rule, "app:ingress.Server."+h.field+"<-runtimeState", "", "hook assigned from runtimeState."+strings.Join(dedup(okTargets), ","), fmt.Sprintf("hook %s is not (only) wired to a runtimeState method: %v", h.field, okTargets))
 	}
+}
+
+// trueOnlyOnConstantTimeMatch: every return of the predicate is constant false, the value of hmac.Equal /
+// ConstantTimeCompare(...) == 1, or constant true behind such a match.
+func trueOnlyOnConstantTimeMatch(p *Program, f *ssa.Function) bool {
+	if f == nil || len(f.Blocks) == 0 {
+		return false
+	}
+	var cmp []Edge
+	for _, b := range f.Blocks {
+		for i := range b.Succs {
+			a, ok := edgeAtom(Edge{b, i})
+			if !ok || a.Op != token.EQL {
+				continue
+			}
+			if call, isCall := a.X.(*ssa.Call); isCall {
+				if isIntConst(a.Y, 1) && calleeIs(call, "crypto/subtle", "", "ConstantTimeCompare") {
+					cmp = append(cmp, Edge{b, i})
+				}
+				if isBoolTrue(a.Y) && calleeIs(call, "crypto/hmac", "", "Equal") {
+					cmp = append(cmp, Edge{b, i})
+				}
+			}
+		}
+	}
+	seen := false
+	for _, r := range returnsOf(f) {
+		if len(r.Results) != 1 {
+			return false
+		}
+		alts := []ssa.Value{r.Results[0]}
+		if phi, ok := r.Results[0].(*ssa.Phi); ok {
+			alts = phi.Edges
+		}
+		for _, v := range alts {
+			if cst, ok := v.(*ssa.Const); ok && cst.Value != nil {
+				if cst.Value.String() == "false" {
+					continue
+				}
+				if okp, _ := p.MustPass(f, r, cmp); okp && len(cmp) > 0 {
+					seen = true
+					continue
+				}
+				return false
+			}
+			if call, ok := v.(*ssa.Call); ok && calleeIs(call, "crypto/hmac", "", "Equal") {
+				seen = true
+				continue
+			}
+			if bo, ok := v.(*ssa.BinOp); ok && bo.Op == token.EQL && isIntConst(bo.Y, 1) {
+				if call, ok := bo.X.(*ssa.Call); ok && calleeIs(call, "crypto/subtle", "", "ConstantTimeCompare") {
+					seen = true
+					continue
+				}
+			}
+			return false
+		}
+	}
+	return seen
 }
